@@ -940,8 +940,6 @@ class Market:
         )
         if self.remain_executable_orders():
             raise AssertionError
-        if self.logger is not None:
-            self.logger.bulk_write(logs=cast(List[Log], logs))
         return logs
 
     def change_fundamental_price(self, scale: float) -> None:
